@@ -1,5 +1,6 @@
 """C10 SVM: kernel symmetry (E3, proof of that clause) + label decoding (E2a)."""
-from sa import absint, elementwise as ew, flow
+from sa import absint, elementwise as ew, flow, guards
+from sa.e1 import BodyCtx
 from sa.mir import AnchorError
 from sa.prov import Resolver, render, alts
 from props.C09 import classes_from_unique
@@ -168,3 +169,74 @@ def run(ck, prog):
     _run_pre_progress(ck, prog)
     from sa import progress
     progress.run_rule(ck, prog, set(DIMENSION_FILES))
+
+
+# ------------------------------------------------------------------ SVC::fit: every label goes through the class table
+_run_pre_remap = run
+
+
+def svc_label_remap(ck, prog):
+    """'both label encodings ({-1,1} and arbitrary pairs)': the internal targets are -1 for classes[0] and +1 for classes[1],
+    decided by comparing the label with the class table - also when the label happens to be -1 or 1 already (with classes
+    {1, 2} the label 1 must become -1). Constant-propagated gate: for a label equal to -1, to 1 and to neither, every path
+    through one iteration of the remapping loop passes a store into the working copy of y."""
+    from sa.isolation import natural_loops
+    rule, inst = "E1-gate", "SVC::fit remaps every label through the class table, including labels equal to -1 or 1"
+    bs = prog.find(r"^svm::svc::SVC::<T, M, K>::fit$")
+    if len(bs) != 1:
+        ck.violation(rule, inst, "SVC::fit", "", expected="anchor exists", found=f"{len(bs)} bodies")
+        return
+    b = bs[0]
+    cx = BodyCtx.of(b)
+    res = cx.res
+    sets = [bb for bb, t in b.calls() if t.get("f") and t["f"]["path"].endswith("BaseVector::set")]
+    loops = natural_loops(b)
+    loop = [(h, nodes) for h, nodes in loops.items() if any(s in nodes for s in sets)]
+    if not sets or not loop:
+        ck.note(f"{inst}: no element-wise remapping loop with BaseVector::set in SVC::fit: no instance")
+        return
+    h, nodes = min(loop, key=lambda x: len(x[1]))
+    be = guards.back_edges(b)
+    latches = [u for (u, hh) in be if hh == h]
+
+    def const_of(t):
+        if t[0] == "call" and t[1].endswith("::one") and not t[2]:
+            return 1
+        if t[0] == "call" and t[1].endswith(("Neg::neg", "::neg")) and t[2] and const_of(t[2][0]) == 1:
+            return -1
+        if t[0] == "un" and t[1] == "Neg" and const_of(t[2]) == 1:
+            return -1
+        return None
+    is_label = lambda t: t[0] == "call" and t[1].endswith("BaseVector::get")
+    tests = []
+    for c in cx.cmps:
+        if c.bb not in nodes:
+            continue
+        for (L, R, rel) in ((c.lhs, c.rhs, c.rel), (c.rhs, c.lhs, guards.FLIP[c.rel])):
+            k = const_of(R)
+            if is_label(L) and k is not None and rel in ("==", "!="):
+                tests.append((c, k, rel))
+    bad = []
+    for v in (-1, 1, 7):
+        cut = set(be)
+        for c, k, rel in tests:
+            truth = (v == k) if rel == "==" else (v != k)
+            cut.add((c.bb, c.false_bb) if truth else (c.bb, c.true_bb))
+        reach = b.reachable_from([h], cut_edges=frozenset(cut), cut_blocks=frozenset(sets))
+        if any(u in reach for u in latches):
+            bad.append(v)
+    where = b.where(h)
+    if bad:
+        ck.violation(rule, inst, b.path, where, expected="a store into the working labels on every path of an iteration, whatever the label value",
+                     found=f"a label equal to {bad} passes the loop body without being remapped ({len(tests)} tests of the label against -1 / 1 evaluated): "
+                           f"with classes such as {{1, 2}} or {{-3, -1}} both classes end up with the same internal target")
+    else:
+        ck.ok(rule, inst, b.path, where, f"labels -1, 1 and any other value all reach a remapping store ({len(tests)} label tests evaluated)")
+
+
+def run(ck, prog):
+    _run_pre_remap(ck, prog)
+    svc_label_remap(ck, prog)
+
+
+EXPLANATION += (' SVC::fit remaps every label through the class table, also labels equal to -1 or 1 (constant-propagated gate).')
